@@ -13,11 +13,15 @@ class Clock:
 class Trigger:
     """the thread's event: wait(t) advances the virtual clock; after t_end it empties the module list (shutdown)"""
     def __init__(self, clock, modules, t_end):
-        self.clock, self.modules, self.t_end, self.waits = clock, modules, t_end, 0
+        self.clock, self.modules, self.t_end, self.waits, self.actions = clock, modules, t_end, 0, []
 
     def wait(self, timeout=None):
         self.waits += 1
         self.clock.now += max(timeout or 0, 0.001)
+        # scripted run-time actions (interval changes, fast polling) happen while the thread sleeps
+        while self.actions and self.actions[0][0] <= self.clock.now:
+            _t, act = self.actions.pop(0)
+            act()
         if self.clock.now >= self.t_end or self.waits > 20000:
             del self.modules[:]
         return False
@@ -145,7 +149,7 @@ def gen_thread(tier, rng):
     from frappy.config import Param
     t_run = 60.0 if tier == 'quick' else 200.0
     for sc in SCENARIOS:
-        for owner in range(len(sc) if tier != 'quick' else 1):
+        for owner, actions_for in [(o, a) for o in range(len(sc) if tier != 'quick' else 1) for a in (None, 0)]:
             clock, log = Clock(), []
             Dev = _make_class(clock, log, sc)
             mods = []
@@ -168,6 +172,20 @@ def gen_thread(tier, rng):
             thread_owner = ms[owner % len(ms)]
             trig = Trigger(clock, modules, t_end)
             thread_owner.triggerPoll = trig
+            # run-time changes on the first polled module: fast polling on, a new poll interval while fast polling, fast polling off
+            # (only in scenarios flagged for it: the staleness bounds of the other clauses assume fixed intervals)
+            for m in ms:
+                m.settled_at = clock.now
+            if actions_for is not None and ms[actions_for].enablePoll:
+                tgt = ms[actions_for]
+                t0 = clock.now
+                new_interval = max(0.1, tgt.pollinterval / 4)      # shorter than before: a stale (longer) interval shows as late polls
+                trig.actions = [(t0 + 10, lambda tgt=tgt: tgt.setFastPoll(True, 0.25)),
+                                (t0 + 15, lambda tgt=tgt, v=new_interval: setattr(tgt, 'pollinterval', v)),
+                                (t0 + 20, lambda tgt=tgt: tgt.setFastPoll(False))]
+                tgt.current_interval_max = max(tgt.current_interval_max, new_interval)
+                tgt.current_interval_min = min(tgt.current_interval_min, 0.25)
+                tgt.settled_at = t0 + 20 + max(tgt.current_interval_max, 0.25) + 1
             saved = FM.time
             FM.time = TimeProxy(clock, real_time, modules, t_end)
 
@@ -180,7 +198,7 @@ def gen_thread(tier, rng):
                     return getattr(owner, '_Module__pollThread')(modules, started)
                 finally:
                     FM.time = saved
-            yield dict(label=f'scenario {SCENARIOS.index(sc)} thread of m{owner % len(ms)}: {[(x[0], x[1], x[4]) for x in sc]}', self=thread_owner, args={},
+            yield dict(label=f'scenario {SCENARIOS.index(sc)} thread of m{owner % len(ms)} actions={actions_for}: {[(x[0], x[1], x[4]) for x in sc]}', self=thread_owner, args={},
                        call=call, ghosts={'poll_log': log, 'all_modules': ms, 't_end': t_end})
             FM.time = saved
 
